@@ -8,6 +8,44 @@ use crate::eval::{Env, Evaluator, Val};
 use serde_json::json;
 use std::collections::{BTreeMap, BTreeSet};
 
+/// C12.qualified: "module-qualified references resolve to that module" — for a value inside a constraint the resolving step
+/// is `ASN1Value::link_elsewhere_declared`. It is evaluated on the reference `max-b` and on its external form `ModB.max-b`
+/// over a definitions table that holds the value: both must be replaced by the value. An arm that only takes the
+/// unqualified spelling leaves `INTEGER (0..ModB.max-b)` with an unresolved bound, which the generators drop silently.
+pub fn qualified_value(m: &Model, ctx: &mut Ctx, rule: &str) {
+    let Some(f) = anchor_fn(m, ctx, rule, Some("ASN1Value"), "link_elsewhere_declared", None) else { return };
+    let consts = const_resolver(m);
+    let named = |n: &str, fields: Vec<(&str, Val)>| Val::Ctor(n.to_string(), vec![], fields.into_iter().map(|(k, v)| (k.to_string(), v)).collect::<BTreeMap<_, _>>());
+    let value = |n: &str, v: Val| Val::Ctor("Value".into(), vec![named("ToplevelValueDefinition", vec![("name", Val::Str(n.into())), ("value", v)])], BTreeMap::new());
+    let mut tlds = crate::eval::new_map();
+    tlds = crate::eval::map_insert(tlds, Val::Str("max-b".into()), value("max-b", Val::Ctor("Integer".into(), vec![Val::int(5)], BTreeMap::new())));
+    let mut inl = inline_all(m, &["ToplevelDefinition", "ASN1Value"]);
+    inl.remove(".link_elsewhere_declared");
+    let ev = Evaluator { consts: &consts, call_hook: &crate::eval::no_hook, inline: Some(&inl) };
+    let params: Vec<String> = f.sig.inputs.iter().filter_map(|a| match a { syn::FnArg::Typed(t) => Some(tok(&t.pat)), _ => None }).collect();
+    for (label, module) in [("max-b", Val::none()), ("ModB.max-b", Val::some(Val::Str("ModB".into())))] {
+        ctx.oblige(rule, &format!("value-reference:{}", label), true);
+        let mut env = Env::new();
+        env.insert("self".into(), named("ElsewhereDeclaredValue", vec![("identifier", Val::Str("max-b".into())), ("parent", Val::none()), ("module", module)]));
+        env.insert(params.first().cloned().unwrap_or("identifier".into()), Val::Str("T".into()));
+        env.insert(params.get(1).cloned().unwrap_or("tlds".into()), tlds.clone());
+        crate::eval::WHILE_BOUND.with(|b| b.set(64));
+        let r = ev.eval_fn_body(&f.block, &mut env);
+        crate::eval::WHILE_BOUND.with(|b| b.set(10_000));
+        match r {
+            Ok(Val::Ctor(ok, _, _)) if ok == "Ok" => {
+                let now = env.get("self").map(|v| v.show()).unwrap_or_default();
+                if now != "Integer(5)" {
+                    ctx.violate(rule, &format!("unresolved:{}", if label.contains('.') { "qualified" } else { "plain" }), &f.file, f.line,
+                        &format!("link_elsewhere_declared leaves the bound `{}` of `T ::= INTEGER (0..{})` as `{}` although `max-b INTEGER ::= 5` is among the definitions: the reference is not resolved, and an unresolved bound is dropped from the bindings without a warning (`value(\"0..\")`, type `Integer` instead of `u8`)", label, label, now.chars().take(100).collect::<String>()));
+                }
+            }
+            Ok(o) => ctx.fail_closed(rule, &format!("[{}]: {}", label, o.show().chars().take(100).collect::<String>())),
+            Err(e) => ctx.fail_closed(rule, &format!("[{}]: {}", label, e)),
+        }
+    }
+}
+
 pub fn run(m: &Model, ctx: &mut Ctx, facts: &Facts) {
     ctx.explanation = "C12.reset (MIR def-use + dominators): for every Backend impl, each field of the backend struct whose type is one of ModuleHeader's environment enums \
 (per-module state) must be assigned in generate_module from the corresponding field of the current module's header, and that assignment must dominate every call in generate_module \
@@ -17,6 +55,7 @@ C12.header (syn): internal_compile applies the tagging pass with, and attaches, 
 C12.imports (syn): one `use super::<snake(module)>::{..}` per import with const-case for value references and title-case for type references; \
 module-qualified references render `super::<snake(module)>::<Title>` through the same manglers; the TypeScript analog `import X = NS.X`. \
 Equality of the per-module output between two different compilations is not computed.".into();
+    qualified_value(m, ctx, "C12.qualified");
     ctx.assumptions = vec![
         "MIR dominators over the non-unwind CFG; field names resolved from ADT definitions by the driver".into(),
         "all definitions of one module share one header (Rc) — established in internal_compile (C12.header)".into(),
